@@ -877,7 +877,13 @@ Lemma f_write_fresh (s1 : fsys) (v : view) (c vi : nat) (name : str) (b : list N
 Proof.
   intros Hn Hg. unfold f_write, file_of. cbn [new_handle hd_name hd_node hd_mode hd_at]. rewrite Hg.
   destruct name as [|c0 name]; [congruence|]. change (has 82 OpenWrite) with true. change (has 82 OpenAppend) with false.
-  cbn [negb]. cbv iota. rewrite write_at_empty. split; reflexivity.
+  cbn [negb]. cbv iota. destruct b as [|b0 b'].
+  - (* zero bytes: nothing is written; the heap the statement names is the same heap *)
+    cbn [fst snd length Z.of_nat]. split; [|reflexivity].
+    assert (Hupd : forall (h : heap) (i0 : nat) (x : node), get h i0 = Some x -> upd h i0 x = h).
+    { unfold get. induction h as [|y h IHh]; intros [|i0] x Hx; cbn in *; try congruence. f_equal. now apply IHh. }
+    rewrite (Hupd _ _ _ Hg). now destruct s1.
+  - rewrite write_at_empty. split; reflexivity.
 Qed.
 
 Lemma kwalk_not_parent : forall f h u root follow cur (work : list str) cnt md a b c d,
